@@ -12,7 +12,7 @@ VERIF = os.path.dirname(os.path.dirname(os.path.abspath(__file__)))
 sys.path.insert(0, VERIF)
 from sa import engine  # noqa: E402
 
-PROPS = ["C%02d" % i for i in range(1, 19)]
+PROPS = ["C%02d" % i for i in range(1, 20)]
 
 
 def main():
